@@ -676,6 +676,79 @@ def gen_store(tier, rng, profile="debug"):
 
 
 
+# ----------------------------------------------------------------- stream `store-groups` (implementation only)
+# A group's matcher entry holds the ids of its present members (type clap::Id).  Every typed accessor called on a group id
+# with one of the value types must FAIL (Downcast) and leave every stored value as it was (seeded change seed2/C04-3: a
+# remove that trusted the entry's recorded type id, which a group entry does not have, removed the entry and then panicked).
+def gen_store_groups(tier, rng):
+    cases = []
+    n = 400 if tier == "quick" else 8000
+    for _ in range(n):
+        ids = rng.sample(["a", "b", "c", "d"], rng.choice([2, 3, 4]))
+        decls = []
+        for i in ids:
+            t = rng.choice(["u8", "string", "bool", "i64"])
+            k = rng.choice([0, 1, 1, 2])
+            pool = VAL_POOL.get(t, [b"1", b"7", b"0", b"100"])
+            decls.append((i, t, [rng.choice(pool) for _ in range(k)]))
+        groups = []
+        for g in rng.sample(["g", "h"], rng.choice([1, 2])):
+            groups.append((g, rng.sample(ids, rng.choice([1, 2]))))
+        ops = []
+        for _ in range(rng.choice([1, 2, 3, 5])):
+            r = rng.random()
+            if r < 0.15:
+                ops.append("(ids)")
+            elif r < 0.75:
+                g = rng.choice(groups)[0]
+                ops.append("(%s %s %s)" % (rng.choice(["get_one", "get_many", "remove_one", "remove_many"]), hexs(g.encode()),
+                                           rng.choice(["u8", "string", "bool", "i64", "u16"])))
+            else:
+                i = rng.choice(ids)
+                wrong = rng.choice([t for t in ["u8", "string", "bool", "i64", "u16"] if t != dict((a, b) for a, b, _ in decls)[i]])
+                ops.append("(%s %s %s)" % (rng.choice(["get_one", "remove_one", "remove_many"]), hexs(i.encode()), wrong))
+        cases.append("(store debug (%s) (%s) (%s))" % (
+            " ".join("(%s %s%s)" % (hexs(i.encode()), t, "".join(" " + hexs(x) for x in vals)) for i, t, vals in decls),
+            " ".join(ops),
+            " ".join("(%s %s)" % (hexs(g.encode()), " ".join(hexs(m.encode()) for m in ms)) for g, ms in groups)))
+    return cases
+
+
+def store_groups_oracle(case, impl):
+    v = sx_parse(case)
+    decls, ops, groups = v[2], v[3], v[4]
+    present = {unhex(d[0]): [unhex(x) for x in d[2:]] for d in decls if len(d) > 2}
+    gpresent = {unhex(g[0]): [unhex(m) for m in g[1:] if unhex(m) in present] for g in groups}
+    gpresent = {g: ms for g, ms in gpresent.items() if ms}
+    m = re.match(r"ops=\((.*)\) final=\((.*)\)\Z", impl)
+    if not m:
+        return "unexpected outcome %s" % impl[:200]
+    outs = sx_parse("(" + m.group(1) + ")")
+    fin = sx_parse("(" + m.group(2) + ")")
+    if "panic" in outs or len(outs) != len(ops):
+        return "a typed access panicked / the history stopped early: %s" % m.group(1)[:300]
+    for op, got in zip(ops, outs):
+        if op[0] == "ids":
+            want = sorted(hexs(k) for k in list(present) + list(gpresent))
+            if sorted(got[1:]) != want:
+                return "ids() = %s, the stored ids are %s" % (got[1:], want)
+            continue
+        i = unhex(op[1])
+        if i in present or i in gpresent:
+            if not (isinstance(got, list) and got[:2] == ["err", "downcast"]):
+                return "%s on a present id with another type must fail with Downcast, got %s" % (op, got)
+        elif got != "none":
+            return "%s on an absent id: expected none, got %s" % (op, got)
+    have = {unhex(k): [unhex(x) for x in raws] for k, raws in fin}
+    for k, raws in present.items():
+        if have.get(k) != raws:
+            return "failing accesses disturbed the stored values of %r: %s, expected %s" % (k, have.get(k), raws)
+    for g in gpresent:
+        if g not in have:
+            return "failing accesses removed the entry of group %r" % g
+    return None
+
+
 # ----------------------------------------------------------------- stream `stored` (round 2): the values a whole parse stores
 # Direct reading of the property's first sentence on the implementation's ArgMatches: at every level of a
 # successful parse, every raw value reported for an argument lies in the language of THAT argument's value
@@ -810,6 +883,8 @@ def streams(tier, rng):
         Stream("possible", gen_possible(tier, rng), oracle=possible_oracle, area="value", nontrivial=possible_nontrivial),
         Stream("enum", gen_enum(tier, rng), oracle=enum_oracle, area="value"),
         Stream("store", gen_store(tier, rng), oracle=store_oracle, area="value", nontrivial=store_nontrivial),
+        Stream("store-groups", gen_store_groups(tier, rng), oracle=store_groups_oracle, area=None,
+               nontrivial=lambda c, r: "(err " in (r or "")),
         Stream("stored", gen_stored(tier, rng), oracle=stored_oracle, area="parse", project=stored_project,
                nontrivial=make_stored_nontrivial(d_stored), describe=d_stored),
     ]
